@@ -37,7 +37,8 @@ HAND = {
 def shards(tier, seed):
     from vf import campaign
 
-    out = [{"kind": "hand", "span": 3000 if tier == "quick" else 70000}, {"kind": "py311", "span": 2000 if tier == "quick" else 20000}]
+    out = [{"kind": "hand", "span": 3000 if tier == "quick" else 70000}, {"kind": "py311", "span": 2000 if tier == "quick" else 20000},
+           {"kind": "hand-warnings-as-errors", "span": 1500 if tier == "quick" else 20000}]
     out += [dict(s, kind="generated", span=600 if tier == "quick" else 5000) for s in campaign.tree_shards(TREES[tier], 2 if tier == "quick" else 10)]
     return out
 
@@ -289,6 +290,16 @@ def run(shard, rec, tier, seed):
     def count(name, n=1):
         rec.count(name, n)
 
+    if kind == "hand-warnings-as-errors":
+        # an application (or its test-suite) that turns warnings into errors: constructing an enum from an integer is
+        # an everyday operation of the deserializers and must not warn either
+        import warnings
+
+        with warnings.catch_warnings():
+            warnings.simplefilter("error")
+            run(dict(shard, kind="hand"), rec, tier, seed)
+        rec.count("shards-run-with-warnings-as-errors")
+        return
     if kind == "hand":
         from vf import stage
 
@@ -329,20 +340,31 @@ def run(shard, rec, tier, seed):
                     rec.count("base-spec-rejected-by-generator")
                     continue
                 all_enums = [t.bridge.top_class(n2) for n2, _d, _p in spec.enums()]
-                for name, decl, path in spec.enums():
-                    E = t.bridge.top_class(name)
-                    declared = {v[1]: ("None_" if v[0] == "None" else v[0]) for v in decl.values}
+                import contextlib
+                import warnings
 
-                    def report(m, msg, c, ti=ti, t=t):
-                        c = dict(c, tree=ti, xml=t.files)
-                        rec.violation(m, "tree %d: %s" % (ti, msg), c)
-                    check_enum(E, declared, shard["span"], rng, report, count, name, [o for o in all_enums if o is not E])
-                    rec.case(None, n=shard["span"])
-                    rec.count("generated-enums")
-                    rec.seen("underlying-types", decl.type)
-                # message level: "values from newer protocol versions survive a read-then-write unchanged" - every
-                # message with an enum field is read with an undeclared ordinal in that field and written again
-                survive(rec, t, ti, spec, rng)
+                strict = contextlib.ExitStack()
+                if ti % 2:
+                    strict.enter_context(warnings.catch_warnings())
+                    warnings.simplefilter("error")
+                    rec.count("trees-run-with-warnings-as-errors")
+                try:
+                    for name, decl, path in spec.enums():
+                        E = t.bridge.top_class(name)
+                        declared = {v[1]: ("None_" if v[0] == "None" else v[0]) for v in decl.values}
+
+                        def report(m, msg, c, ti=ti, t=t):
+                            c = dict(c, tree=ti, xml=t.files)
+                            rec.violation(m, "tree %d: %s" % (ti, msg), c)
+                        check_enum(E, declared, shard["span"], rng, report, count, name, [o for o in all_enums if o is not E])
+                        rec.case(None, n=shard["span"])
+                        rec.count("generated-enums")
+                        rec.seen("underlying-types", decl.type)
+                    # message level: "values from newer protocol versions survive a read-then-write unchanged" - every
+                    # message with an enum field is read with an undeclared ordinal in that field and written again
+                    survive(rec, t, ti, spec, rng)
+                finally:
+                    strict.close()
         rec.sample({"generated_enums_from_trees": shard["trees"]})
 
 
